@@ -116,7 +116,7 @@ def run(ctx):
                     bad.append("operand %d = %s, produced by %s" % (i, panic.norm_str(fl.describe(a, depth=8)), sorted(x.split("::")[-1] for x in pr)))
             key = "%s|%s" % (b.short, panic.shape_str(panic.norm(fl.describe(t.args[0], depth=6))))
             ctx.require(not bad, "R-C11-4", key, "both operands of the intersection in %s are self-excluded neighbour sets" % b.short.split("::", 3)[-1], "an intersection in %s uses a neighbour set from which the node itself was not removed (%s): a self-loop is counted as a common neighbour" % (b.short, "; ".join(bad)), loc_str(t.span))
-    ctx.floor("R-C11-4", "intersections_in_kernels", n_int, 12)
+    ctx.floor("R-C11-4", "intersections_in_kernels", n_int, 6)
     ctx.note("square.rs removes the centre node after intersecting (different scheme) and is outside R-C11-4")
 
     # ------------------------------------------------------------------ R-C11-5
